@@ -104,6 +104,18 @@ func (vc *VC) callModelled(st *State, o *types.Func, recv *Val, argv []Val, c *a
 		vc.assume(st, fmt.Sprintf("(and (> %s 0) (not (= %s %s)))", norg, norg, org))
 		vc.noteFreshOrigin(st, norg)
 		return one(Val{S: fmt.Sprintf("(mk_%s %s %s %s)", s.Sort, arr, ln, norg), Ty: s.Ty, Sort: s.Sort})
+	case "bytes.Equal":
+		trusted()
+		// r == (len(a) == len(b) && forall k in [0, len(a)) :: a[k] == b[k])
+		a, b := argv[0], argv[1]
+		if _, ok := a.Ty.Underlying().(*types.Slice); !ok {
+			return nil, false
+		}
+		aa, al, _ := vc.sliceParts(a)
+		ba, bl, _ := vc.sliceParts(b)
+		r := vc.fresh("beq", "Bool")
+		vc.assume(st, fmt.Sprintf("(= %s (and (= %s %s) (forall ((k Int)) (=> (and (<= 0 k) (< k %s)) (= (select %s k) (select %s k))))))", r, al, bl, al, aa, ba))
+		return one(Val{S: r, Ty: types.Typ[types.Bool], Sort: "Bool"})
 	case "binary.bigEndian.Uint16", "binary.bigEndian.Uint32", "binary.bigEndian.Uint64":
 		trusted()
 		n := map[string]int64{"binary.bigEndian.Uint16": 2, "binary.bigEndian.Uint32": 4, "binary.bigEndian.Uint64": 8}[key]
